@@ -81,6 +81,8 @@ def run_history(ctx, name, rng, nsets, length):
   for data in datasets:
     kw = fits.base_kwargs(name, data)
     kw.update(array_params(name, data, rng))
+    if name == 'LFDA' and rng.random() < 0.6:
+      kw['k'] = int(data['d'] + rng.integers(0, 4))      # legal: a k beyond n_features - 1 is clipped for THIS fit (with a warning)
     kws.append(fits.sdml_fix_balance(name, kw, data))
   # hyper-parameters that depend on the data (n_basis, balance_param ...) are set by set_params before each fit
   est = fits.make_estimator(name, kws[0])
@@ -101,9 +103,17 @@ def run_history(ctx, name, rng, nsets, length):
           args = fits.fit_args(name, data)
           extra = extra_fit_args(name, data, rng)
           before = digest((args, extra, {p: v for p, v in est.get_params().items() if isinstance(v, np.ndarray)}))
+          plain_before = {p: (id(v), repr(v)) for p, v in est.get_params().items() if not isinstance(v, np.ndarray)}
           argcopy = (copy.deepcopy(args), copy.deepcopy(extra))
           r = est.fit(*args, **extra)
           after = digest((args, extra, {p: v for p, v in est.get_params().items() if isinstance(v, np.ndarray)}))
+          plain_after = {p: (id(v), repr(v)) for p, v in est.get_params().items() if not isinstance(v, np.ndarray)}
+          ctx.count('hyperparameters_unmodified', 1)
+          if plain_before != plain_after:
+            changed = sorted(p for p in plain_before if plain_before[p] != plain_after.get(p))
+            ctx.fail_input('arguments_unmodified', 'fit changes the hyper-parameter(s) %s' % ', '.join(changed),
+                           dict(estimator=name, before={p: plain_before[p][1] for p in changed}, n_features=int(data['d'])),
+                           observed={p: plain_after[p][1] for p in changed})
           ctx.count('arguments_unmodified', 1)
           if before != after:
             what = 'fit modifies its arguments or array-valued hyper-parameters'
@@ -300,6 +310,26 @@ def preprocessor_history_lane(ctx):
         ctx.fail_input('preprocessor_history', '%s: history %s raises %s' % (name, hist, type(ex).__name__),
                        dict(estimator=name, history=hist), observed=str(ex)[:200])
         continue
+      if hist == 'array->array' and fits.KIND[name] in ('pairs', 'triplets', 'quads') and hasattr(est, 'predict'):
+        # query methods answer from the FITTED state: after set_params(preprocessor=<other array>) without a refit, a call of
+        # predict / decision_function / score must not change what pair_distance / transform return for the same indicators
+        try:
+          with warnings.catch_warnings():
+            warnings.simplefilter('ignore')
+            e2 = fits.make_estimator(name, dict(kw, preprocessor=A)).fit(*args)
+            pidx = np.asarray(args[0])[:4, :2]
+            d0, t0 = e2.pair_distance(pidx), e2.transform(np.arange(3))
+            e2.set_params(preprocessor=B)
+            e2.predict(np.asarray(args[0])[:4])
+            e2.decision_function(np.asarray(args[0])[:4])
+            d1, t1 = e2.pair_distance(pidx), e2.transform(np.arange(3))
+          ctx.count('queries_preserve_state', 1)
+          if not (np.array_equal(d0, d1) and np.array_equal(t0, t1)):
+            ctx.fail_input('queries_preserve_state', '%s: after set_params(preprocessor=<other array>), predict / decision_function change what pair_distance / transform answer (the fitted preprocessor is replaced by a query)' % name,
+                           dict(estimator=name, A=A.tolist(), B=B.tolist()), observed=np.asarray(d1).tolist(), expected=np.asarray(d0).tolist())
+        except Exception as ex:
+          ctx.fail_input('preprocessor_history', '%s: queries after set_params(preprocessor=...) raise %s' % (name, type(ex).__name__),
+                         dict(estimator=name), observed=str(ex)[:200])
       for other, what in ((fresh, 'a fresh estimator constructed with the new preprocessor'), (cl, 'a clone')):
         if not np.array_equal(np.asarray(est.components_), np.asarray(other.components_), equal_nan=True):
           ctx.fail_input('preprocessor_history', '%s: fit, set_params(preprocessor=<other array>), fit with the same indicators learns another model than %s (history %s)' % (name, what, hist),
